@@ -30,6 +30,41 @@ def sameLen (l : List (List Bool)) : Bool :=
 def shapeOk (kind : String) (names : List String) (nv : Nat) (valid : Bool) : Bool :=
   isStrictSorted names && valid && (kind == "E" || nv == names.length)
 
+/-! the recipe (a DNF given by its clauses) evaluated by the driver: the independent reference -/
+abbrev Clause := List (String × Bool)
+
+def decClauses : Sexp → List Clause
+  | list (atom "C" :: cls) => cls.map fun
+    | list lits => lits.map fun
+      | list [n, p] => (decName n, decBool p)
+      | _ => ("?", false)
+    | _ => []
+  | _ => []
+
+def evalRecipe (cs : List Clause) (look : String → Option Bool) (dflt : Bool) : Bool :=
+  cs.any fun c => c.all fun (v, p) => (look v).getD dflt == p
+
+def recipeVars (cs : List Clause) : List String := sortDedup (cs.flatMap fun c => c.map (·.1))
+
+/-- the assignment that satisfies exactly clause `j` (every other clause is falsified through its first literal) -/
+def onlyClause (cs : List Clause) (j : Nat) : String → Option Bool := fun v =>
+  match cs[j]? with
+  | none => none
+  | some cj =>
+    match cj.find? (·.1 == v) with
+    | some (_, p) => some p
+    | none =>
+      match (cs.filter fun c => (c.head?.map (·.1)) == some v).head? with
+      | some c => c.head?.map fun l => !l.2
+      | none => some false
+
+def missingVar (v : String) : Bool :=
+  v != "zz" && ((v.drop 1).toString.toNat?.map (· % 5 == 0)).getD false
+
+def sameClauseSet (a b : List Clause) : Bool :=
+  a.all (fun c => b.any fun d => c.all d.contains && d.all c.contains) &&
+  b.all (fun c => a.any fun d => c.all d.contains && d.all c.contains)
+
 def lawJudge (op : String) (args : List Sexp) (impl : Sexp) : Bool × String :=
   let kind := match args with | atom k :: _ => k | _ => "?"
   match op, impl with
@@ -82,6 +117,50 @@ def lawJudge (op : String) (args : List Sexp) (impl : Sexp) : Bool × String :=
     else ((decList flips).all fun
       | list [u, diff] => !decBool diff || essential.contains (decName u)
       | _ => false, "law:flip-names-essential")
+  | "law.eval", list [atom "L", cls, uni, list rows, vfull, vdef1, vdef0, list cks] =>
+    -- C02: the three evaluation modes against the recipe evaluated here
+    let cs := decClauses cls
+    let names := decNames uni
+    let looks : List (String → Option Bool) := rows.map fun r =>
+      let bits := decBits r
+      fun v => (names.zip bits).lookup v
+    let full := looks.map fun l => evalRecipe cs l false
+    let part (d : Bool) := looks.map fun l => evalRecipe cs (fun v => if missingVar v then none else l v) d
+    let missing := (recipeVars cs).filter missingVar
+    if rows.isEmpty || decBits vfull != full then (false, "law:evaluate")
+    else if decBits vdef1 != part true then (false, "law:evaluate-with-default-true")
+    else if decBits vdef0 != part false then (false, "law:evaluate-with-default-false")
+    else ((cks.zip full).all fun
+      | (list [c1, c2], b) =>
+        c1 == encBool b &&
+        (if missing.isEmpty then true else c2 == list (atom "m" :: missing.map encName))
+      | _ => false, "law:evaluate-checked")
+  | "law.cmp", list [atom "L", ca, rev, cg, widest, e1, e2, i1, i2, e3] =>
+    -- C04: the answers forced by the clause structure
+    let a := decClauses ca
+    let g := decClauses cg
+    let w := decNat widest
+    let wit := onlyClause a w
+    let differs := evalRecipe a wit false != evalRecipe g wit false
+    let other := (List.range a.length).find? fun j => j != w
+    if !(sameClauseSet a (decClauses rev)) then (false, "law:recipe")
+    else if !decBool e1 then (false, "law:equivalent-to-reordered-clauses")
+    else if differs && decBool e2 then (false, "law:not-equivalent-when-a-witness-differs")
+    else if !decBool i1 then (false, "law:clause-implies-dnf")
+    else if (match other with
+        | some j =>
+          let w' := onlyClause a j
+          evalRecipe a w' false && !(evalRecipe [a[w]?.getD []] w' false) && decBool i2
+        | none => false) then (false, "law:dnf-does-not-imply-clause")
+    else (decBool e3, "law:declared-only-input-keeps-equivalence")
+  | "law.subst", list [atom "L", nr, nv, vd, na, key, other, br, ba] =>
+    let k := decName key
+    let expected := sortDedup (((decNames na).filter (· != k)) ++ [decName other])
+    if !shapeOk kind (decNames nr) (decNat nv) (decBool vd) then (false, "law:shape")
+    else if kind != "E" && decNames nr != expected then (false, "law:substituted-inputs")
+    else if kind == "E" && !((decNames nr).all expected.contains) then (false, "law:substituted-inputs")
+    else if !sameLen [decBits br, decBits ba] then (false, "law:samples")
+    else (decBits br == decBits ba, "law:value-at-composed-assignment")
   | "law.nnf", list [atom "L", r, na, br, ba]
   | "law.cnf", list [atom "L", r, na, br, ba]
   | "law.dnf", list [atom "L", r, na, br, ba] =>
